@@ -281,7 +281,8 @@ func classifyFalseDup(s Schema, pre []Row, st Stmt) string {
 	cs := candidates(s, pre, st)
 	if st.Kind == "addunique" {
 		// errIfDuplicateEntryExist hashes the j-th indexed value with the type of the j-th TABLE column: a binary string
-		// column indexed at position j is compared under table column j's case-insensitive collation
+		// column indexed at position j is compared under table column j's case- and accent-insensitive collation
+		// (the values are distinct under the indexed column's own collation, else the rejection would be legitimate)
 		for j, ic := range st.Index.Cols {
 			if s.Cols[ic].Str && !s.Cols[ic].Ci && j < len(s.Cols) && s.Cols[j].Str && s.Cols[j].Ci {
 				for x := range pre {
@@ -652,6 +653,10 @@ func corpus() []caseT {
 		{Schema: Schema{Cols: []Col{{Str: true, Ci: true}, {Str: true}}, PK: []int{}, Uniq: []Unique{}, Planned: &Unique{Cols: []int{1}, Prefix: []int{0}}},
 			Stmts: []Stmt{{Kind: "insert", Rows: []Row{{StrV("b"), StrV("a")}, {StrV("B"), StrV("A")}}, Limit: -1},
 				{Kind: "addunique", Index: &Unique{Cols: []int{1}, Prefix: []int{0}}, Limit: -1}}},
+		// ... reached through an accent variant: c1's 'e' / 'è' are hashed under c0's utf8mb4_0900_ai_ci (seed 31337)
+		{Schema: Schema{Cols: []Col{{Str: true, Ci: true}, {Str: true}}, PK: []int{0}, Uniq: []Unique{}, Planned: &Unique{Cols: []int{1}, Prefix: []int{2}}},
+			Stmts: []Stmt{{Kind: "insert", Rows: []Row{{StrV("1"), StrV("1a")}, {StrV("12"), NullV()}, {StrV("aB"), StrV("e")}, {StrV("abcd"), StrV("日")}, {StrV("ABCE"), StrV("è")}}, Limit: -1},
+				{Kind: "addunique", Index: &Unique{Cols: []int{1}, Prefix: []int{2}}, Limit: -1}}},
 		// order-dependent key shifts
 		{Schema: Schema{Cols: ints(2), PK: []int{0}, Uniq: []Unique{}},
 			Stmts: []Stmt{{Kind: "insert", Rows: []Row{iv(1, 0), iv(2, 0), iv(3, 0)}, Limit: -1},
